@@ -631,6 +631,36 @@ def mutating_args_part(ctx):
     return n
 
 
+def equal_but_distinct_args_part(ctx):
+    """Runs sharing one cache whose arguments compare EQUAL in Python but are different values (1 / 1.0 / True, 0.0 / -0.0,
+    (1, 2) / (1.0, 2.0), Decimal / Fraction equal to ints): transparency - every cached run returns what the function computes
+    for ITS arguments (the function tells them apart: repr, copysign, type)."""
+    import math
+    from decimal import Decimal
+    from fractions import Fraction
+    from hypergraph import Graph, SyncRunner, InMemoryCache
+    from hypergraph.nodes import FunctionNode
+    rng = ctx.rng
+    groups = [[1, 1.0, True, Decimal(1), Fraction(1, 1)], [0, 0.0, -0.0, False], [(1, 2), (1.0, 2.0), (True, 2)], [2, 2.0], ["1", 1]]
+
+    def show(q, unit="kg"):
+        return f"{q!r} {unit} {math.copysign(1, q[0] if isinstance(q, tuple) else float(q)) if not isinstance(q, str) else 0}"
+    n = 0
+    for _ in range(ctx.n(6, 40)):
+        runner = SyncRunner(cache=InMemoryCache())
+        g = Graph([FunctionNode(show, name="show", output_name="label", cache=True)])
+        grp = list(rng.choice(groups))
+        rng.shuffle(grp)
+        for q in grp + grp[:2]:
+            got = runner.run(g, {"q": q}).values.get("label")
+            n += 1
+            if got != show(q):
+                ctx.violation("oracle", f"cached run with q={q!r} ({type(q).__name__}) returned {got!r}; the function computes {show(q)!r} "
+                              f"(an entry written for an argument that only compares equal was served)", case={"family": "equal_but_distinct_args", "order": [repr(x) for x in grp]})
+                break
+    return n
+
+
 def factory_closures_part(ctx):
     """Cacheable nodes made by ONE factory (same source text) that capture different values are different definitions: an entry
     written by one is never served to another; and a cached value handed to a consumer that mutates it is still the computed
@@ -779,7 +809,7 @@ def run(ctx):
     n2, t2 = disk_part(ctx, batch, N)
     n2 += store_part(ctx, batch, N)
     n3, t3 = program_part(ctx)
-    n4 = same_definition_part(ctx) + container_part(ctx) + same_gate_function_part(ctx) + mutating_args_part(ctx) + factory_closures_part(ctx)
+    n4 = same_definition_part(ctx) + container_part(ctx) + same_gate_function_part(ctx) + mutating_args_part(ctx) + factory_closures_part(ctx) + equal_but_distinct_args_part(ctx)
     from harness.props.c14 import cached_interrupt_part
     n4 += cached_interrupt_part(ctx)      # cache=True interrupts: every run of a pause/answer history equals the uncached run
     res = batch.run()
